@@ -20,7 +20,7 @@
 //!            step that releases the mutex)
 //!   g v w  what returned in this step: 0 nothing, -1 acquire_env returned Err, -2 request_reload returned,
 //!          otherwise acquire_env returned a guard: g = generation of the creator call that built the environment,
-//!          v = number of completed flag-sets when its template "v" was (re)loaded, w = source version it shows.
+//!          v = number of completed REQ_SET steps when its template "v" was (re)loaded, w = source version it shows.
 //!
 //! While a thread is parked inside a callback the notifier mutex is held.  A thread parked before a
 //! notifier lock can then only be released *speculatively* (at most one at a time): the controller
@@ -118,11 +118,11 @@ fn takes_notifier(pt: i64) -> bool {
 impl Shared {
     fn yield_at(&self, tid: usize, pt: i64) {
         let mut g = self.m.lock().unwrap();
-        if pt == 2 {
-            // the flag section of request_reload has just completed
-            g.reqs_done += 1;
-        }
         if let Some(ev) = g.cur[tid].take() {
+            if ev.pt == 1 {
+                // the step that ran the flag section of request_reload is complete
+                g.reqs_done += 1;
+            }
             g.out[tid].push(ev);
         }
         g.status[tid] = Status::Parked(pt);
@@ -147,6 +147,9 @@ impl Shared {
     fn finish(&self, tid: usize) {
         let mut g = self.m.lock().unwrap();
         if let Some(ev) = g.cur[tid].take() {
+            if ev.pt == 1 {
+                g.reqs_done += 1;
+            }
             g.out[tid].push(ev);
         }
         g.status[tid] = Status::Done;
